@@ -187,3 +187,51 @@ def writeRPC (split : String → List String) (maxBlob : Int) (present : String 
   | .eof c => if putOK then .ok c else .err
 
 end BR.Proto
+
+namespace BR.Proto
+
+/-! ### ByteStream.QueryWriteStatus and ByteStream.Read -/
+
+/-- `QueryWriteStatus`: `none` = InvalidArgument; otherwise (committed_size, complete) -/
+def queryWriteStatus (split : String → List String) (present : String → Int → Bool) (name : String) :
+    Option (Int × Bool) :=
+  match parseWrite (split name) with
+  | .ok (hash, size, _) => some (if present hash size then (size, true) else (0, false))
+  | _ => none
+
+/-- what `Read` decides before it starts streaming -/
+inductive ReadPre where
+  | invalidArgument
+  | outOfRange
+  | notFound
+  | empty           -- success, no data
+  | emptyZstd       -- success, one message with the empty zstd frame
+  | stream          -- stream the bytes [offset, size) (compressed for compressed-blobs names)
+deriving DecidableEq, Repr
+
+/-- the checks of `Read` in source order (after the `fix:` for reads at the very end of a blob) -/
+def readPre (split : String → List String) (present : String → Int → Bool) (name : String) (offset limit : Int) :
+    ReadPre :=
+  match parseRead (split name) with
+  | .ok (hash, size, z) =>
+    if size = 0 then (if z then .emptyZstd else .empty)
+    else if offset < 0 then .invalidArgument
+    else if z ∧ limit ≠ 0 then .invalidArgument
+    else if limit < 0 then .outOfRange
+    else if offset > size then .outOfRange
+    else if offset = size then (if present hash size then (if z then .emptyZstd else .empty) else .notFound)
+    else if present hash size then .stream else .notFound
+  | _ => .invalidArgument
+
+/-- the send loop: `reads` are the sizes of the successive non-empty reads from the blob reader
+(each becomes one message); with a non-zero `read_limit` the loop stops with OUT_OF_RANGE before the
+message that would exceed the budget.  Result: bytes delivered, and whether the call ends OK. -/
+def sendLoop (limited : Bool) : Int → List Nat → Nat × Bool
+  | _, [] => (0, true)
+  | rem, n :: ns =>
+    if limited ∧ rem - (n : Int) < 0 then (0, false)
+    else
+      let r := sendLoop limited (rem - (n : Int)) ns
+      (n + r.1, r.2)
+
+end BR.Proto
